@@ -13,6 +13,7 @@ package main
 
 import (
 	"fmt"
+	"strings"
 
 	"github.com/hashicorp/consul/internal/verifharness/hx"
 )
@@ -144,29 +145,93 @@ func (g *gen) multiTxn() {
 		case 2:
 			ops = append(ops, tKVSet(hx.Pick(g.r, []string{"a", "b"}), hx.Pick(g.r, kvVals), uint64(g.r.Intn(2))))
 		case 3:
-			n := hx.Pick(g.r, []string{"n1", "n2"})
+			n := hx.Pick(g.r, []string{"n1", "n2", "N1"})
 			ops = append(ops, tNodeCas(n, hx.Pick(g.r, addrs), hx.Pick(g.r, nodeIDs), g.pickCidx(cl, readNode(n)(g.ws.store()), "node/"+n)))
 		case 4:
-			ops = append(ops, tNodeSet(hx.Pick(g.r, []string{"n1", "n2"}), hx.Pick(g.r, addrs), hx.Pick(g.r, nodeIDs)))
+			ops = append(ops, tNodeSet(hx.Pick(g.r, []string{"n1", "n2", "N1"}), hx.Pick(g.r, addrs), hx.Pick(g.r, nodeIDs)))
 		case 5:
-			n := hx.Pick(g.r, []string{"n1", "n2"})
+			n := hx.Pick(g.r, []string{"n1", "n2", "N1"})
 			ops = append(ops, tSvcCas(n, "web", hx.Pick(g.r, ports), g.pickCidx(cl, readSvc(n, "web")(g.ws.store()), "svc/"+n+"/web")))
 		case 6:
-			ops = append(ops, tSvcSet(hx.Pick(g.r, []string{"n1", "n2"}), "web", hx.Pick(g.r, ports)))
+			ops = append(ops, tSvcSet(hx.Pick(g.r, []string{"n1", "n2", "N1"}), "web", hx.Pick(g.r, ports)))
 		case 7:
-			n := hx.Pick(g.r, []string{"n1", "n2"})
-			ops = append(ops, tChkCas(n, "c1", hx.Pick(g.r, []string{"", "web"}), hx.Pick(g.r, outs), g.pickCidx(cl, readChk(n, "c1")(g.ws.store()), "chk/"+n+"/c1")))
+			n := hx.Pick(g.r, []string{"n1", "n2", "N1"})
+			ops = append(ops, tChkCas(n, "c1", hx.Pick(g.r, []string{"", "web"}), hx.Pick(g.r, outs), hx.Pick(g.r, chkStatuses), g.pickCidx(cl, readChk(n, "c1")(g.ws.store()), "chk/"+n+"/c1")))
 		case 8:
-			n := hx.Pick(g.r, []string{"n1", "n2"})
+			n := hx.Pick(g.r, []string{"n1", "n2", "N1"})
 			ops = append(ops, tNodeDelCas(n, hx.Pick(g.r, nodeIDs), g.pickCidx(cl, readNode(n)(g.ws.store()), "node/"+n)))
 		default:
-			n := hx.Pick(g.r, []string{"n1", "n2"})
+			n := hx.Pick(g.r, []string{"n1", "n2", "N1"})
 			ops = append(ops, tSvcDelCas(n, "web", g.pickCidx(cl, readSvc(n, "web")(g.ws.store()), "svc/"+n+"/web")))
 		}
 	}
 	res, _ := g.exec(txnCmd(ops...))
 	if len(res) > 6 && res[:6] == "txn-ok" {
 		g.nontriv = true
+	}
+}
+
+// txnChain: one transaction whose operations all address the SAME entity, so that every
+// conditional verb after the first is judged against what the earlier ones left behind
+// (an index that was current before the transaction is stale after a write inside it; the raft
+// index of the transaction itself is the "current" index once an earlier operation has written).
+func (g *gen) txnChain() {
+	idx := g.reserveIdx()
+	fam := g.r.Intn(4)
+	n := hx.Pick(g.r, []string{"n1", "n2", "N1"})
+	if fam >= 2 && g.r.Chance(85) {
+		ensureNode(n)(g)
+		idx = g.reserveIdx()
+	}
+	var cur ent
+	key := ""
+	switch fam {
+	case 0:
+		key = "kv/a"
+		cur = readKV("a")(g.ws.store())
+	case 1:
+		key = "node/" + n
+		cur = readNode(n)(g.ws.store())
+	case 2:
+		key = "svc/" + n + "/web"
+		cur = readSvc(n, "web")(g.ws.store())
+	default:
+		key = "chk/" + n + "/c1"
+		cur = readChk(n, "c1")(g.ws.store())
+	}
+	pick := func() uint64 {
+		switch g.r.Intn(6) {
+		case 0:
+			run.Tag("cidx:index-of-this-transaction")
+			return idx
+		case 1:
+			return 0
+		case 2, 3:
+			return g.pickCidx("current", cur, key)
+		default:
+			return g.pickCidx(hx.Pick(g.r, []string{"stale", "future"}), cur, key)
+		}
+	}
+	var ops []top
+	for k, m := 0, 2+g.r.Intn(3); k < m; k++ {
+		verb := g.r.Intn(5) // 0 set, 1 delete, 2/3 cas, 4 delete-cas
+		switch fam {
+		case 0:
+			ops = append(ops, []top{tKVSet("a", hx.Pick(g.r, kvVals), 0), tKVDel("a"), tKVCas("a", hx.Pick(g.r, kvVals), 0, pick()), tKVCas("a", hx.Pick(g.r, kvVals), 1, pick()), tKVDelCas("a", pick())}[verb])
+		case 1:
+			id := hx.Pick(g.r, nodeIDs[:3])
+			ops = append(ops, []top{tNodeSet(n, hx.Pick(g.r, addrs), id), tNodeDel(n, ""), tNodeCas(n, hx.Pick(g.r, addrs), id, pick()), tNodeCas(n, hx.Pick(g.r, addrs), "", pick()), tNodeDelCas(n, "", pick())}[verb])
+		case 2:
+			ops = append(ops, []top{tSvcSet(n, "web", hx.Pick(g.r, ports)), tSvcDel(n, "web"), tSvcCas(n, "web", hx.Pick(g.r, ports), pick()), tSvcCas(n, "web", hx.Pick(g.r, ports), pick()), tSvcDelCas(n, "web", pick())}[verb])
+		default:
+			ops = append(ops, []top{tChkSet(n, "c1", "", hx.Pick(g.r, outs), "passing"), tChkDel(n, "c1"), tChkCas(n, "c1", "", hx.Pick(g.r, outs), hx.Pick(g.r, chkStatuses), pick()), tChkCas(n, "c1", "", hx.Pick(g.r, outs), "passing", pick()), tChkDelCas(n, "c1", pick())}[verb])
+		}
+	}
+	run.Tag("txn-chain:" + []string{"kv", "node", "service", "check"}[fam])
+	res, _ := g.exec(txnCmd(ops...))
+	if strings.HasPrefix(res, "txn-ok") {
+		g.nontriv = true
+		run.Tag("txn-chain:committed")
 	}
 }
 
@@ -212,6 +277,31 @@ func systematic(rounds int) {
 			}
 		}
 		nodeIDMatrix(fork)
+		// transactions whose operations depend on each other (per-op monitor)
+		for _, pre := range []string{"absent", "present", "rewritten"} {
+			for k := 0; k < 60; k++ {
+				g := newGen(fork())
+				if pre != "absent" {
+					for _, c := range []cmd{kvSetCmd("a", "v1", 0), txnCmd(tNodeSet("n1", addrs[0], nodeIDs[g.r.Intn(2)])), txnCmd(tSvcSet("n1", "web", ports[0])), txnCmd(tChkSet("n1", "c1", "", "ok", "passing"))} {
+						g.exec(c)
+					}
+					if pre == "rewritten" {
+						g.exec(kvSetCmd("a", "v2", 0))
+						g.exec(txnCmd(tNodeSet("n1", addrs[1], "")))
+						g.exec(txnCmd(tSvcSet("n1", "web", ports[1])))
+						g.exec(txnCmd(tChkSet("n1", "c1", "", "warn", "passing")))
+					}
+					for _, kk := range []struct {
+						k string
+						r func(storeT) ent
+					}{{"kv/a", readKV("a")}, {"node/n1", readNode("n1")}, {"svc/n1/web", readSvc("n1", "web")}, {"chk/n1/c1", readChk("n1", "c1")}} {
+						g.remember(kk.k, kk.r)
+					}
+				}
+				g.txnChain()
+				g.finish("systematic-txn-chain")
+			}
+		}
 		// roots, composite and feature gates have their own enumerations
 		for _, pre := range []string{"absent", "present", "rewritten"} {
 			for _, class := range cidxClasses {
@@ -263,13 +353,13 @@ func nodeIDMatrix(fork func() *hx.RNG) {
 	idA, idB, idC := nodeIDs[1], nodeIDs[2], nodeIDs[3]
 	for _, target := range []string{"absent", "no-id", "with-id"} {
 		for _, other := range []bool{false, true} {
-			for _, healthy := range []bool{false, true} {
-				if healthy && target == "absent" {
+			for _, healthy := range []string{"", "passing", "critical"} {
+				if healthy != "" && target == "absent" {
 					continue
 				}
 				for _, opID := range []string{"", idA, idB, idC} {
 					for _, class := range []string{"zero", "current", "stale", "future"} {
-						for _, verb := range []string{"cas", "cas", "delete-cas", "set"} {
+						for _, verb := range []string{"cas", "delete-cas", "set"} {
 							g := newGen(fork())
 							switch target {
 							case "no-id":
@@ -288,11 +378,16 @@ func nodeIDMatrix(fork func() *hx.RNG) {
 									g.exec(txnCmd(tSvcSet("n2", "web", ports[0]))) // something for a rename to cascade over
 								}
 							}
-							if healthy {
-								g.exec(txnCmd(tChkSet("n1", "serfHealth", "", "ok")))
+							if healthy != "" {
+								g.exec(txnCmd(tChkSet("n1", "serfHealth", "", "ok", healthy)))
 							}
-							run.Tag(fmt.Sprintf("nodeid-matrix:target=%s,other=%v,healthy=%v", target, other, healthy))
-							d := nodeDrivers("n1")
+							run.Tag(fmt.Sprintf("nodeid-matrix:target=%s,other=%v,serf=%s", target, other, healthy))
+							opName := "n1"
+							if g.r.Chance(35) {
+								opName = "N1" // same registration, other spelling
+								run.Tag("nodeid-matrix:case-colliding-name")
+							}
+							d := nodeDrivers(opName)
 							cur := readNode("n1")(g.ws.store())
 							cidx := g.pickCidx(class, cur, "node/n1")
 							content := g.r.Intn(2)
@@ -395,8 +490,10 @@ func history(r *hx.RNG, length int) {
 				hx.Pick(g.r, []string{"current", "current", "zero", "stale", "pred"}), g.r.Chance(60), g.r.Chance(92))
 		case x < 90:
 			g.tokenBatch()
-		default:
+		case x < 95:
 			g.multiTxn()
+		default:
+			g.txnChain()
 		}
 	}
 	g.finish("history")
